@@ -43,6 +43,18 @@ Theorem C07_values_cover_proxy : forall exts drop ms label stored ls l v,
 Proof. exact values_cover_proxy. Qed.
 Print Assumptions C07_values_cover_proxy.
 
+(* Histories: a TSDB store may be built with some external labels and reloaded with others
+   (SetExtLset, e.g. on a receiver hashring reload) before it is queried. LabelNames and
+   LabelValues read the store's CURRENT external labels (source facts of Gen/C07.v), so all three
+   responses — of each store and of the proxy in front — are those of a store built with the current
+   labels, whatever the history; the coverage theorems above therefore hold after any reload. *)
+Theorem C07_history_irrelevant : forall stored drop ms label (inits exts : list labels),
+  length inits = length exts ->
+  map (model_store_h stored drop ms label) (combine inits exts) = map (model_store stored drop ms label) exts
+  /\ model_proxy_h stored (combine inits exts) drop ms label = model_proxy stored exts drop ms label.
+Proof. exact history_irrelevant. Qed.
+Print Assumptions C07_history_irrelevant.
+
 (* The object-storage store gateway (BucketStore) over any set of blocks (external labels +
    stored series per block; blocks may have different external labels): names and values cover,
    both through the index-header path (no series matcher left after stripping the external-label
